@@ -9,6 +9,7 @@ import (
 	"crypto/sha1"
 	"encoding/base64"
 	"errors"
+	"fmt"
 	"net"
 	"net/http"
 	"strings"
@@ -120,6 +121,11 @@ type RespWriter struct {
 	// Hijack commits nothing.
 	Deferred bool
 	pending  int
+	// HeadInWriter makes this a server that builds its response in the connection's
+	// bufio.Writer and flushes at the end of the request: the head of a committed response
+	// is still in the bufio.Writer that Hijack hands over (the Hijacker contract allows
+	// that; net/http happens to flush inside Hijack) and leaves with the new owner's first flush.
+	HeadInWriter bool
 }
 
 // WriteHeaderNow commits a status noted by WriteHeader (gin's ResponseWriter has this method).
@@ -174,6 +180,11 @@ func (w *RespWriter) Hijack() (net.Conn, *bufio.ReadWriter, error) {
 	bw := bufio.NewWriter(w.lib)
 	if w.lib.InPending() > 0 {
 		br.Peek(1) // pipelined client bytes are already buffered, as in net/http
+	}
+	if w.HeadInWriter && w.Code != 0 {
+		fmt.Fprintf(bw, "HTTP/1.1 %d %s\r\n", w.Code, http.StatusText(w.Code))
+		w.H.Write(bw)
+		bw.WriteString("\r\n")
 	}
 	return w.lib, bufio.NewReadWriter(br, bw), nil
 }
